@@ -172,10 +172,14 @@ func Parse(b []byte) (*Parsed, error) {
 		start := off
 		t := b[off]
 		iei := t
-		if t >= 0x80 {
+		var o *OptIE
+		switch {
+		case t >= 0x80: // half-octet IEI 8..F in bits 8-5
 			iei = t >> 4
+			o = p.Def.FindOpt(iei)
+		case t >= 0x10: // full-octet IEI 10..7F
+			o = p.Def.FindOpt(t)
 		}
-		o := p.Def.FindOpt(iei)
 		if o == nil {
 			return nil, perr(start, "%s: IEI %#02x not in the message table", p.Def.Name, t)
 		}
